@@ -965,3 +965,657 @@ Proof.
 Qed.
 
 End Flows.
+
+(* ================================================================= *)
+(*  global variables                                                  *)
+(* ================================================================= *)
+Section Vars.
+Variable panics : ssite -> bool.
+Variable sw : save_switches.
+
+(* what write_json puts under key k for a global with value v *)
+Definition var_written (defaults : list (text * value)) (k : text) (v : value) : option json :=
+  match assoc k defaults with
+  | Some d => if val_equal sw v d then None else Some (write_value sw v)
+  | None => Some (write_value sw v)
+  end.
+
+Definition write_vars_step (defaults : list (text * value)) (acc : list (text * json)) (kv : text * value) :=
+  match assoc (fst kv) defaults with
+  | Some d => if val_equal sw (snd kv) d then acc else assoc_set (fst kv) (write_value sw (snd kv)) acc
+  | None => assoc_set (fst kv) (write_value sw (snd kv)) acc
+  end.
+
+Lemma write_vars_assoc defaults rest :
+  keys_nodup_b rest = true ->
+  forall acc, (forall kv, In kv rest -> assoc (fst kv) acc = None) ->
+  forall k, assoc k (fold_left (write_vars_step defaults) rest acc)
+            = match assoc k rest with Some v => var_written defaults k v | None => assoc k acc end.
+Proof.
+  induction rest as [|[k0 v0] rest IH]; intros Hnd acc Hacc k; [reflexivity|].
+  apply keys_nodup_tail in Hnd as [Hk0 Hnd]. cbn [fold_left].
+  assert (Hacc' : forall kv, In kv rest -> assoc (fst kv) (write_vars_step defaults acc (k0, v0)) = None).
+  { intros [k2 v2] Hin. cbn [fst].
+    assert (Hne : text_eqb k2 k0 = false).
+    { destruct (text_eqb k2 k0) eqn:E; [|reflexivity]. apply text_eqb_eq in E. subst.
+      exfalso. exact (assoc_none_not_in _ _ Hk0 _ Hin). }
+    pose proof (Hacc (k2, v2) (or_intror Hin)) as Ha. cbn [fst] in Ha.
+    unfold write_vars_step. cbn [fst snd].
+    destruct (assoc k0 defaults) as [d|]; [destruct (val_equal sw v0 d)|]; try assumption;
+      rewrite assoc_assoc_set, Hne; assumption. }
+  rewrite (IH Hnd _ Hacc' k). cbn [assoc].
+  destruct (text_eqb k k0) eqn:E.
+  - apply text_eqb_eq in E. subst k. rewrite Hk0.
+    pose proof (Hacc (k0, v0) (or_introl eq_refl)) as Ha. cbn [fst] in Ha.
+    unfold write_vars_step, var_written. cbn [fst snd].
+    destruct (assoc k0 defaults) as [d|]; [destruct (val_equal sw v0 d)|]; try assumption;
+      rewrite assoc_assoc_set, text_eqb_refl; reflexivity.
+  - destruct (assoc k rest); [reflexivity|].
+    unfold write_vars_step. cbn [fst snd].
+    destruct (assoc k0 defaults) as [d|]; [destruct (val_equal sw v0 d)|]; try reflexivity;
+      rewrite assoc_assoc_set, E; reflexivity.
+Qed.
+
+Lemma write_vars_unfold v :
+  write_vars sw v = JObj (fold_left (write_vars_step (vs_defaults v)) (vs_globals v) []).
+Proof. reflexivity. Qed.
+
+Lemma nodup_in_assoc {V} k (d : V) l : keys_nodup_b l = true -> In (k, d) l -> assoc k l = Some d.
+Proof.
+  induction l as [|[k' d'] l IH]; intros Hnd Hin; [contradiction|].
+  apply keys_nodup_tail in Hnd as [Hk Hnd]. cbn.
+  destruct Hin as [Heq|Hin].
+  - inversion Heq; subst. now rewrite text_eqb_refl.
+  - destruct (text_eqb k k') eqn:E; [|now apply IH].
+    apply text_eqb_eq in E. subst. exfalso. exact (assoc_none_not_in _ _ Hk _ Hin).
+Qed.
+
+Definition norm_globals_step (globals : list (text * value)) (acc : list (text * value)) (kd : text * value) :=
+  assoc_set (fst kd)
+    (match assoc (fst kd) globals with
+     | Some v => if val_equal sw v (snd kd) then snd kd else norm_value sw v
+     | None => snd kd
+     end) acc.
+
+Lemma norm_globals_unfold defaults globals :
+  norm_globals sw defaults globals = fold_left (norm_globals_step globals) defaults [].
+Proof. reflexivity. Qed.
+
+Lemma load_vars_roundtrip defaults globals :
+  wf_valmap_b globals = true -> keys_nodup_b defaults = true ->
+  forall o, (forall k, assoc k o = match assoc k globals with Some v => var_written defaults k v | None => None end) ->
+  forall rest acc, (forall kd, In kd rest -> In kd defaults) ->
+  load_vars_loop panics rest o acc = (Ok tt, fold_left (norm_globals_step globals) rest acc).
+Proof.
+  intros Hg Hd o Ho. unfold wf_valmap_b in Hg. apply andb_true_iff in Hg as [Hgn Hgw].
+  induction rest as [|[k d] rest IH]; intros acc Hsub; [reflexivity|].
+  cbn [load_vars_loop fold_left]. rewrite Ho.
+  pose proof (nodup_in_assoc k d defaults Hd (Hsub (k, d) (or_introl eq_refl))) as Ekd.
+  unfold norm_globals_step at 2. cbn [fst snd].
+  destruct (assoc k globals) as [v|] eqn:Eg.
+  - unfold var_written. rewrite Ekd. destruct (val_equal sw v d).
+    + apply IH. intros kd Hin. apply Hsub. now right.
+    + assert (Hv : wf_value_b v = true).
+      { clear -Eg Hgw. induction globals as [|[k' v'] g IH]; [discriminate|]. cbn in Eg, Hgw.
+        apply andb_true_iff in Hgw as [H1 H2]. destruct (text_eqb k k'); [inversion Eg; now subst|now apply IH]. }
+      rewrite (value_token_roundtrip sw v Hv). cbn [bind ssite_res].
+      apply IH. intros kd Hin. apply Hsub. now right.
+  - apply IH. intros kd Hin. apply Hsub. now right.
+Qed.
+
+Lemma vars_roundtrip_lemma v defaults_t :
+  wf_valmap_b (vs_globals v) = true -> keys_nodup_b (vs_defaults v) = true ->
+  defaults_t = vs_defaults v ->
+  exists o, write_vars sw v = JObj o
+            /\ load_vars_loop panics defaults_t o [] = (Ok tt, norm_globals sw defaults_t (vs_globals v)).
+Proof.
+  intros Hg Hd ->. eexists. split; [apply write_vars_unfold|].
+  rewrite norm_globals_unfold. apply (load_vars_roundtrip (vs_defaults v)); try assumption.
+  - intros k. unfold wf_valmap_b in Hg. apply andb_true_iff in Hg as [Hgn _].
+    rewrite (write_vars_assoc (vs_defaults v) (vs_globals v) Hgn []) by reflexivity.
+    destruct (assoc k (vs_globals v)); reflexivity.
+  - intros kd Hin. exact Hin.
+Qed.
+
+End Vars.
+
+(* ================================================================= *)
+(*  whole states                                                      *)
+(* ================================================================= *)
+Lemma mbind_ok {A B} (m : M A) (f : A -> M B) w a w' : m w = (OOk a, w') -> mbind m f w = f a w'.
+Proof. unfold mbind. now intros ->. Qed.
+
+Section State.
+Variable panics : ssite -> bool.
+Variable sw : save_switches.
+
+(* load_json_obj with the field lookups already done *)
+Definition load_flows_core (fj : json) (cn : option json) : M unit :=
+  let* fd := lift (or_bad "Invalid flows object" (j_as_obj fj)) in
+  let single := Nat.eqb (length fd) 1 in
+  let* _ := set_named (if single then None else Some []) in
+  let* _ := load_flows_loop panics sw single fd in
+  let* s := get_state in
+  match ss_named s with
+  | Some nf =>
+      if Nat.ltb 1 (length nf) then
+        match obind cn j_as_str with
+        | Some c =>
+            match assoc c nf with
+            | Some f => let* _ := set_flow f in set_named (Some (assoc_remove c nf))
+            | None => ret tt
+            end
+        | None => ret tt
+        end
+      else ret tt
+  | None => ret tt
+  end.
+
+Definition load_i32 (x : json) (msg : string) (set : Z -> sstate -> sstate) : M unit :=
+  let* z := lift (or_bad msg (j_as_i64 x)) in mod_state (set (wrap32 z)).
+
+Definition load_fields (jfl jcn jvars jeval : json) (jdiv : option json)
+           (jvis jtur jti jseed jprev jsv : json) : M unit :=
+  let* _ := lift (match j_as_i64 jsv with
+                  | Some v => if (v <? min_compatible_load_version)%Z
+                              then bad_json "Ink save format isn't compatible with the current version"
+                              else Ok tt
+                  | None => Ok tt
+                  end) in
+  let* _ := load_flows_core jfl (Some jcn) in
+  let* _ := (let* vo := lift (or_bad "Invalid variables state object" (j_as_obj jvars)) in
+             let* s := get_state in
+             let '(r, g) := load_vars_loop panics (vs_defaults (ss_vars s)) vo [] in
+             let* _ := mod_state (fun s => s <| ss_vars ::= fun v => v <| vs_globals := g |> |>) in
+             lift r) in
+  let* _ := (let* ea := lift (ssite_res panics S_eval_arr (j_as_arr jeval)) in
+             let* ev := lift (jarray_to_obj_list ea false) in
+             mod_state (fun s => s <| ss_eval := ev |>)) in
+  let* _ := (match jdiv with
+             | Some dj =>
+                 let* root := gets root_of in
+                 let* p := lift (pointer_at_path root (path_parse (j_as_str dj))) in
+                 mod_state (fun s => s <| ss_diverted := p |>)
+             | None => ret tt
+             end) in
+  let* _ := (let* vo := lift (or_bad "Invalid visit counts object" (j_as_obj jvis)) in
+             let* m := lift (jobject_to_int_hashmap vo) in
+             mod_state (fun s => s <| ss_visits := m |>)) in
+  let* _ := (let* vo := lift (or_bad "Invalid turn indices object" (j_as_obj jtur)) in
+             let* m := lift (jobject_to_int_hashmap vo) in
+             mod_state (fun s => s <| ss_turns := m |>)) in
+  let* _ := load_i32 jti "Invalid current turn index" (fun z s => s <| ss_turn := z |>) in
+  let* _ := load_i32 jseed "Invalid story seed" (fun z s => s <| ss_seed := z |>) in
+  let* z := lift (or_bad "Invalid previous random value" (j_as_i64 jprev)) in
+  mod_state (fun s => s <| ss_prev_random := wrap32 z |>).
+
+Definition state_fields (jfl jcn jvars jeval : json) (jdiv : list (text * json))
+           (jvis jtur jti jseed jprev jsv jfv : json) : list (text * json) :=
+  [(T "flows", jfl); (T "currentFlowName", jcn); (T "variablesState", jvars); (T "evalStack", jeval)]
+  ++ jdiv
+  ++ [(T "visitCounts", jvis); (T "turnIndices", jtur); (T "turnIdx", jti); (T "storySeed", jseed);
+      (T "previousRandom", jprev); (T "inkSaveVersion", jsv); (T "inkFormatVersion", jfv)].
+
+Lemma load_shape_0 jfl jcn jvars jeval jvis jtur jti jseed jprev jsv jfv :
+  load_json_obj panics sw (JObj (state_fields jfl jcn jvars jeval [] jvis jtur jti jseed jprev jsv jfv))
+  = load_fields jfl jcn jvars jeval None jvis jtur jti jseed jprev jsv.
+Proof. reflexivity. Qed.
+Lemma load_shape_1 jfl jcn jvars jeval jd jvis jtur jti jseed jprev jsv jfv :
+  load_json_obj panics sw (JObj (state_fields jfl jcn jvars jeval [(T "currentDivertTarget", jd)]
+                                              jvis jtur jti jseed jprev jsv jfv))
+  = load_fields jfl jcn jvars jeval (Some jd) jvis jtur jti jseed jprev jsv.
+Proof. reflexivity. Qed.
+
+End State.
+
+(* ---------- worlds: replacing the state ---------- *)
+Definition set_st (w : world) (s : sstate) : world :=
+  mkWorld (w_story w) s (w_rcc w) (w_async w) (w_snapshot w) (w_observers w) (w_validated w)
+          (w_fallbacks w) (w_saw_unsafe w) (w_externals w) (w_handler w) (w_events w) (w_lines w)
+          (w_fuel w) (w_pauses w) (w_pause_left w).
+
+Lemma mod_state_run f w : mod_state f w = (OOk tt, set_st w (f (w_state w))).
+Proof. destruct w; reflexivity. Qed.
+Lemma get_state_run w : get_state w = (OOk (w_state w), w).
+Proof. reflexivity. Qed.
+Lemma set_st_eq w s : set_st w s = w <| w_state := s |>.
+Proof. destruct w; reflexivity. Qed.
+Lemma set_st_twice w a b : set_st (set_st w a) b = set_st w b.
+Proof. reflexivity. Qed.
+Lemma lift_ok_run {A} (a : A) w : lift (Ok a) w = (OOk a, w).
+Proof. reflexivity. Qed.
+
+(* sstate updates on the fields the loader writes *)
+Definition st_flow (s : sstate) (f : flow) : sstate := s <| ss_flow := f |>.
+Definition st_named (s : sstate) (n : option (list (text * flow))) : sstate := s <| ss_named := n |>.
+Lemma st_named_named s n : ss_named (st_named s n) = n.
+Proof. destruct s; reflexivity. Qed.
+Lemma st_named_twice s n m : st_named (st_named s n) m = st_named s m.
+Proof. destruct s; reflexivity. Qed.
+Lemma st_flow_named s f : ss_named (st_flow s f) = ss_named s.
+Proof. destruct s; reflexivity. Qed.
+
+Section StateFlows.
+Variable panics : ssite -> bool.
+Variable sw : save_switches.
+Variable root : container.
+
+Definition flow_rel (kj : text * json) (kf : text * flow) : Prop :=
+  fst kj = fst kf /\ exists o, snd kj = JObj o /\ flow_from_json panics sw root (fst kj) o = Ok (snd kf).
+
+Lemma forall2_assoc_set k v v' l l' :
+  Forall2 flow_rel l l' -> flow_rel (k, v) (k, v') ->
+  Forall2 flow_rel (assoc_set k v l) (assoc_set k v' l').
+Proof.
+  intros H Hr. induction H as [|[k1 j1] [k2 f2] l l' Hh Ht IH]; cbn.
+  - constructor; [assumption|constructor].
+  - destruct Hh as [Hk Ho]. cbn in Hk. subst k2. destruct (text_eqb k k1).
+    + constructor; assumption.
+    + constructor; [split; [reflexivity|exact Ho]|exact IH].
+Qed.
+
+Lemma write_flows_rel ccs named :
+  forallb (fun kf : text * flow => wf_flow_b root ccs (snd kf)) named = true ->
+  forall accj accf, Forall2 flow_rel accj accf ->
+  exists fd,
+    foldM (fun acc (kf : text * flow) =>
+             do j <- write_flow panics sw root ccs (snd kf); Ok (assoc_set (fst kf) j acc)) named accj = Ok fd
+    /\ Forall2 flow_rel fd
+         (fold_left (fun acc (kf : text * flow) => assoc_set (fst kf) (norm_flow sw root ccs (fst kf) (snd kf)) acc)
+                    named accf).
+Proof.
+  induction named as [|[k f] named IH]; intros Hwf accj accf Hrel.
+  - exists accj. split; [reflexivity|assumption].
+  - cbn in Hwf. apply andb_true_iff in Hwf as [Hf Hn].
+    destruct (flow_roundtrip_lemma panics sw root ccs k f Hf) as (o & Hw & Hr).
+    cbn [foldM fold_left fst snd]. rewrite Hw. cbn [bind].
+    apply IH; [assumption|]. apply forall2_assoc_set; [assumption|].
+    split; [reflexivity|]. exists o. split; [reflexivity|exact Hr].
+Qed.
+
+Lemma keys_nodup_assoc_set {V} k (v : V) l : keys_nodup_b l = true -> keys_nodup_b (assoc_set k v l) = true.
+Proof.
+  induction l as [|[k' v'] l IH]; intros H; [reflexivity|].
+  apply keys_nodup_tail in H as [Hk Hl]. cbn [assoc_set].
+  destruct (text_eqb k k') eqn:E.
+  - apply text_eqb_eq in E. subst. cbn. unfold assoc_mem. rewrite Hk. now rewrite Hl.
+  - cbn. unfold assoc_mem. rewrite assoc_assoc_set.
+    assert (E2 : text_eqb k' k = false).
+    { destruct (text_eqb k' k) eqn:E2; [|reflexivity]. apply text_eqb_eq in E2. subst. now rewrite text_eqb_refl in E. }
+    rewrite E2, Hk. cbn. now apply IH.
+Qed.
+
+Lemma flows_as_saved_nodup s : keys_nodup_b (flows_as_saved sw root s) = true.
+Proof.
+  unfold flows_as_saved.
+  set (named := match ss_named s with Some nf => nf | None => [] end).
+  generalize (norm_flow sw root (fl_cs (ss_flow s)) (fl_name (ss_flow s)) (ss_flow s)). intros f0.
+  assert (H0 : keys_nodup_b [(fl_name (ss_flow s), f0)] = true) by reflexivity.
+  revert H0. generalize [(fl_name (ss_flow s), f0)]. clearbody named.
+  induction named as [|kf named IH]; intros acc H; [assumption|].
+  cbn [fold_left]. apply IH. now apply keys_nodup_assoc_set.
+Qed.
+
+(* the per-flow loop of the loader, multi-flow mode *)
+Lemma load_flows_loop_multi fd fl : Forall2 flow_rel fd fl ->
+  forall w nf0, root_of w = root -> ss_named (w_state w) = Some nf0 ->
+  load_flows_loop panics sw false fd w
+  = (OOk tt, set_st w (st_named (w_state w)
+                         (Some (fold_left (fun acc (kf : text * flow) => assoc_set (fst kf) (snd kf) acc) fl nf0)))).
+Proof.
+  induction 1 as [|[k j] [k' f] fd fl Hh Ht IH]; intros w nf0 Hroot Hn.
+  - cbn [load_flows_loop fold_left]. unfold ret. f_equal. destruct w as [st s]; cbn in *. destruct s; cbn in *. now subst.
+  - destruct Hh as [Hk (o & Hj & Hf)]. cbn [fst snd] in *. subst k' j.
+    cbn [load_flows_loop]. cbn [j_as_obj or_bad].
+    rewrite (mbind_ok _ _ w o w) by reflexivity.
+    rewrite (mbind_ok _ _ w root w) by (unfold gets; now rewrite Hroot).
+    rewrite Hf. rewrite (mbind_ok _ _ w f w) by reflexivity.
+    rewrite (mbind_ok _ _ w tt (set_st w (st_named (w_state w) (Some (assoc_set k f nf0))))).
+    + rewrite (IH _ (assoc_set k f nf0)); [|exact Hroot|apply st_named_named].
+      cbn [fold_left fst snd w_state set_st]. rewrite st_named_twice. reflexivity.
+    + rewrite (mbind_ok _ _ w (w_state w) w) by reflexivity. rewrite Hn.
+      unfold set_named. apply mod_state_run.
+Qed.
+
+End StateFlows.
+
+Section StateMain.
+Variable panics : ssite -> bool.
+Variable sw : save_switches.
+Variable root : container.
+
+Definition flows_loaded (s0 : sstate) (fl : list (text * flow)) (cur : text) : sstate :=
+  if Nat.eqb (length fl) 1 then
+    match fl with
+    | (_, f) :: _ => st_flow (st_named s0 None) f
+    | [] => st_named s0 None
+    end
+  else
+    match assoc cur fl with
+    | Some f => st_named (st_flow (st_named s0 (Some fl)) f) (Some (assoc_remove cur fl))
+    | None => st_named s0 (Some fl)
+    end.
+
+Lemma fold_assoc_set_id {V} (l : list (text * V)) : keys_nodup_b l = true ->
+  fold_left (fun acc (kf : text * V) => assoc_set (fst kf) (snd kf) acc) l [] = l.
+Proof.
+  intros H. rewrite (fold_assoc_set_nodup0 (fun kv : text * V => snd kv) l H).
+  induction l as [|[k v] l IH]; [reflexivity|]. cbn. f_equal. apply IH. now apply keys_nodup_tail in H as [_ H].
+Qed.
+
+Lemma forall2_length {A B} (R : A -> B -> Prop) l l' : Forall2 R l l' -> length l = length l'.
+Proof. induction 1; cbn; congruence. Qed.
+
+Lemma load_flows_core_run fd fl cur w :
+  Forall2 (flow_rel panics sw root) fd fl -> keys_nodup_b fl = true -> root_of w = root ->
+  load_flows_core panics sw (JObj fd) (Some (JStr cur)) w
+  = (OOk tt, set_st w (flows_loaded (w_state w) fl cur)).
+Proof.
+  intros Hrel Hnd Hroot. unfold load_flows_core. cbn [j_as_obj or_bad].
+  rewrite (mbind_ok _ _ w fd w) by reflexivity.
+  pose proof (forall2_length _ _ _ Hrel) as Hlen. unfold flows_loaded. rewrite <- Hlen.
+  destruct (Nat.eqb (length fd) 1) eqn:Es.
+  - (* single flow *)
+    destruct Hrel as [|[k j] [k' f] fd' fl' Hh Ht]; [discriminate|].
+    destruct Ht; [|discriminate]. destruct Hh as [Hk (o & Hj & Hf)]. cbn [fst snd] in *. subst k' j.
+    unfold set_named at 1. rewrite (mbind_ok _ _ w tt _ (mod_state_run _ w)).
+    set (w1 := set_st w _).
+    assert (Hloop : load_flows_loop panics sw true [(k, JObj o)] w1 = (OOk tt, set_st w1 (st_flow (w_state w1) f))).
+    { cbn [load_flows_loop j_as_obj or_bad].
+      rewrite (mbind_ok _ _ w1 o w1) by reflexivity.
+      rewrite (mbind_ok _ _ w1 root w1) by (unfold gets; subst w1; cbn; now rewrite <- Hroot).
+      rewrite Hf. rewrite (mbind_ok _ _ w1 f w1) by reflexivity.
+      unfold set_flow. rewrite (mbind_ok _ _ w1 tt _ (mod_state_run _ w1)). reflexivity. }
+    rewrite (mbind_ok _ _ w1 tt _ Hloop).
+    rewrite (mbind_ok _ _ _ _ _ (get_state_run _)).
+    subst w1. cbn [w_state set_st]. unfold st_flow, st_named. destruct (w_state w); reflexivity.
+  - (* several flows (or none) *)
+    unfold set_named at 1. rewrite (mbind_ok _ _ w tt _ (mod_state_run _ w)).
+    set (w1 := set_st w _).
+    assert (Hn1 : ss_named (w_state w1) = Some []) by (subst w1; cbn [w_state set_st]; destruct (w_state w); reflexivity).
+    assert (Hr1 : root_of w1 = root) by (subst w1; exact Hroot).
+    rewrite (mbind_ok _ _ w1 tt _ (load_flows_loop_multi panics sw root fd fl Hrel w1 [] Hr1 Hn1)).
+    rewrite (fold_assoc_set_id fl Hnd).
+    rewrite (mbind_ok _ _ _ _ _ (get_state_run _)).
+    cbn [w_state set_st]. rewrite st_named_named.
+    subst w1. cbn [w_state set_st].
+    change (w_state w <| ss_named := Some [] |>) with (st_named (w_state w) (Some [])).
+    rewrite st_named_twice, set_st_twice.
+    destruct (Nat.ltb 1 (length fl)) eqn:El.
+    + cbn [obind j_as_str]. destruct (assoc cur fl) as [f|] eqn:Ea; [|reflexivity].
+      unfold set_flow. rewrite (mbind_ok _ _ _ tt _ (mod_state_run _ _)).
+      unfold set_named. rewrite mod_state_run. reflexivity.
+    + (* length fl = 0 *)
+      assert (fl = []).
+      { apply Nat.ltb_ge in El. apply Nat.eqb_neq in Es. rewrite Hlen in Es. destruct fl as [|? [|? ?]]; cbn in *; [reflexivity|congruence|lia]. }
+      subst fl. reflexivity.
+Qed.
+
+Lemma pointer_eqb_eq p q : pointer_eqb p q = true -> p = q.
+Proof.
+  destruct p as [pc pi], q as [qc qi]. unfold pointer_eqb. cbn. intros H. apply andb_true_iff in H as [H1 H2].
+  apply Z.eqb_eq in H2. subst. destruct pc, qc; try discriminate; [apply pos_eqb_eq in H1; now subst|reflexivity].
+Qed.
+
+Lemma load_i32_run z msg set w : in_i32 z = true ->
+  load_i32 (JInt z) msg set w = (OOk tt, set_st w (set z (w_state w))).
+Proof.
+  intros H. unfold load_i32. rewrite (in_i32_as_i64 z H). cbn [or_bad].
+  rewrite (mbind_ok _ _ w z w) by reflexivity. rewrite wrap32_id by assumption. apply mod_state_run.
+Qed.
+
+(* the state after all the stores of load_json_obj *)
+Definition state_loaded (s0 : sstate) (s : sstate) : sstate :=
+  let s1 := flows_loaded s0 (flows_as_saved sw root s) (fl_name (ss_flow s)) in
+  let s2 := s1 <| ss_vars ::= fun v => v <| vs_globals := norm_globals sw (vs_defaults (ss_vars s0)) (vs_globals (ss_vars s)) |> |> in
+  let s3 := s2 <| ss_eval := map (norm_obj sw) (ss_eval s) |> in
+  let s4 := if ptr_is_null (ss_diverted s) then s3 else s3 <| ss_diverted := ss_diverted s |> in
+  let s5 := s4 <| ss_visits := ss_visits s |> in
+  let s6 := s5 <| ss_turns := ss_turns s |> in
+  let s7 := s6 <| ss_turn := ss_turn s |> in
+  let s8 := s7 <| ss_seed := ss_seed s |> in
+  s8 <| ss_prev_random := ss_prev_random s |>.
+
+Lemma state_loaded_norm s0 s : state_loaded s0 s = norm_sstate sw root s0 s.
+Proof.
+  unfold state_loaded, norm_sstate, flows_loaded, st_flow, st_named.
+  destruct s0 as [fl0 se0 [g0 d0 b0 c0 p0] ev0 er0 wa0 pa0 nm0 dv0 vi0 tu0 ti0 sd0 pr0].
+  cbn [ss_vars vs_defaults ss_flow].
+  destruct (Nat.eqb (length (flows_as_saved sw root s)) 1).
+  - destruct (flows_as_saved sw root s) as [|[k f] r]; destruct (ptr_is_null (ss_diverted s)); reflexivity.
+  - destruct (assoc (fl_name (ss_flow s)) (flows_as_saved sw root s));
+      destruct (ptr_is_null (ss_diverted s)); reflexivity.
+Qed.
+
+End StateMain.
+
+Section StateFinal.
+Variable panics : ssite -> bool.
+Variable sw : save_switches.
+
+Lemma w_state_set_st w s : w_state (set_st w s) = s.
+Proof. reflexivity. Qed.
+Lemma root_of_set_st w s : root_of (set_st w s) = root_of w.
+Proof. reflexivity. Qed.
+
+Lemma flows_loaded_vars s0 fl cur : ss_vars (flows_loaded s0 fl cur) = ss_vars s0.
+Proof.
+  unfold flows_loaded, st_flow, st_named. destruct s0.
+  destruct (Nat.eqb (length fl) 1); [destruct fl as [|[? ?] ?]; reflexivity|].
+  destruct (assoc cur fl); reflexivity.
+Qed.
+
+(* the stages of load_fields after the flows *)
+Lemma vars_stage ov g w :
+  load_vars_loop panics (vs_defaults (ss_vars (w_state w))) ov [] = (Ok tt, g) ->
+  (let* vo := lift (or_bad "Invalid variables state object" (j_as_obj (JObj ov))) in
+   let* s := get_state in
+   let '(r, g) := load_vars_loop panics (vs_defaults (ss_vars s)) vo [] in
+   let* _ := mod_state (fun s => s <| ss_vars ::= fun v => v <| vs_globals := g |> |>) in
+   lift r) w
+  = (OOk tt, set_st w ((w_state w) <| ss_vars ::= fun v => v <| vs_globals := g |> |>)).
+Proof.
+  intros H. cbn [j_as_obj or_bad]. rewrite (mbind_ok _ _ w ov w) by reflexivity.
+  rewrite (mbind_ok _ _ w _ w (get_state_run w)). rewrite H.
+  rewrite (mbind_ok _ _ w tt _ (mod_state_run _ w)). reflexivity.
+Qed.
+
+Lemma eval_stage jev ev w :
+  jarray_to_obj_list jev false = Ok ev ->
+  (let* ea := lift (ssite_res panics S_eval_arr (j_as_arr (JArr jev))) in
+   let* ev := lift (jarray_to_obj_list ea false) in
+   mod_state (fun s => s <| ss_eval := ev |>)) w
+  = (OOk tt, set_st w ((w_state w) <| ss_eval := ev |>)).
+Proof.
+  intros H. cbn [j_as_arr ssite_res]. rewrite (mbind_ok _ _ w jev w) by reflexivity.
+  rewrite H. rewrite (mbind_ok _ _ w ev w) by reflexivity. apply mod_state_run.
+Qed.
+
+Lemma intmap_stage (msg : string) o m (set : list (text * Z) -> sstate -> sstate) w :
+  jobject_to_int_hashmap o = Ok m ->
+  (let* vo := lift (or_bad msg (j_as_obj (JObj o))) in
+   let* m := lift (jobject_to_int_hashmap vo) in
+   mod_state (set m)) w
+  = (OOk tt, set_st w (set m (w_state w))).
+Proof.
+  intros H. cbn [j_as_obj or_bad]. rewrite (mbind_ok _ _ w o w) by reflexivity.
+  rewrite H. rewrite (mbind_ok _ _ w m w) by reflexivity. apply mod_state_run.
+Qed.
+
+Theorem save_load_norm_lemma t w :
+  wf_world_b w = true -> root_of t = root_of w ->
+  vs_defaults (ss_vars (w_state t)) = vs_defaults (ss_vars (w_state w)) ->
+  exists j, write_state panics sw w = Ok j
+            /\ load_state panics sw t j = (OOk tt, norm_save sw (root_of w) t w).
+Proof.
+  intros Hwf Hroot Hdef.
+  unfold wf_world_b, wf_sstate_b in Hwf.
+  set (root := root_of w) in *. set (s := w_state w) in *.
+  apply andb_true_iff in Hwf as [Hwf Hprev]. apply andb_true_iff in Hwf as [Hwf Hseed].
+  apply andb_true_iff in Hwf as [Hwf Hturn]. apply andb_true_iff in Hwf as [Hwf Htur].
+  apply andb_true_iff in Hwf as [Hwf Hvis]. apply andb_true_iff in Hwf as [Hwf Hdiv].
+  apply andb_true_iff in Hwf as [Hwf Hev]. apply andb_true_iff in Hwf as [Hwf Hd].
+  apply andb_true_iff in Hwf as [Hwf Hg]. apply andb_true_iff in Hwf as [Hcur Hnamed].
+  set (ccs := fl_cs (ss_flow s)) in *. set (cur := fl_name (ss_flow s)).
+  set (named := match ss_named s with Some nf => nf | None => [] end).
+  assert (Hnamed' : forallb (fun kf : text * flow => wf_flow_b root ccs (snd kf)) named = true).
+  { subst named. destruct (ss_named s); [now apply andb_true_iff in Hnamed as [Hn _]|reflexivity]. }
+  destruct (flow_roundtrip_lemma panics sw root ccs cur (ss_flow s) Hcur) as (ocur & Hwc & Hrc).
+  assert (Hrel0 : Forall2 (flow_rel panics sw root) [(cur, JObj ocur)] [(cur, norm_flow sw root ccs cur (ss_flow s))]).
+  { constructor; [|constructor]. split; [reflexivity|]. exists ocur. split; [reflexivity|exact Hrc]. }
+  destruct (write_flows_rel panics sw root ccs named Hnamed' _ _ Hrel0) as (fd & Hfd & Hrel).
+  change (fold_left _ named _) with (flows_as_saved sw root s) in Hrel.
+  destruct (objs_roundtrip sw (ss_eval s) Hev) as (jev & Hwe & Hre).
+  destruct (vars_roundtrip_lemma panics sw (ss_vars s) _ Hg Hd Hdef) as (ov & Hwv & Hrv).
+  destruct (intmap_roundtrip (ss_visits s) Hvis) as (ovi & Hwvi & Hrvi).
+  destruct (intmap_roundtrip (ss_turns s) Htur) as (otu & Hwtu & Hrtu).
+  assert (Hver : lift (match j_as_i64 (JInt ink_save_state_version) with
+                       | Some v => if (v <? min_compatible_load_version)%Z
+                                   then bad_json "Ink save format isn't compatible with the current version"
+                                   else Ok tt
+                       | None => Ok tt
+                       end) t = (OOk tt, t)) by reflexivity.
+  assert (Hnd : keys_nodup_b (flows_as_saved sw root s) = true) by apply flows_as_saved_nodup.
+  (* everything after the flows and the diverted pointer, on any world *)
+  assert (Htail : forall w0 : world,
+    vs_defaults (ss_vars (w_state w0)) = vs_defaults (ss_vars (w_state t)) -> root_of w0 = root ->
+    forall (jdiv : option json) (sdiv : sstate -> sstate),
+    (forall w1, root_of w1 = root -> (match jdiv with
+                 | Some dj => let* root := gets root_of in
+                              let* p := lift (pointer_at_path root (path_parse (j_as_str dj))) in
+                              mod_state (fun s => s <| ss_diverted := p |>)
+                 | None => ret tt
+                 end) w1 = (OOk tt, set_st w1 (sdiv (w_state w1)))) ->
+    (let* _ := (let* vo := lift (or_bad "Invalid variables state object" (j_as_obj (JObj ov))) in
+                let* s := get_state in
+                let '(r, g) := load_vars_loop panics (vs_defaults (ss_vars s)) vo [] in
+                let* _ := mod_state (fun s => s <| ss_vars ::= fun v => v <| vs_globals := g |> |>) in
+                lift r) in
+     let* _ := (let* ea := lift (ssite_res panics S_eval_arr (j_as_arr (JArr jev))) in
+                let* ev := lift (jarray_to_obj_list ea false) in
+                mod_state (fun s => s <| ss_eval := ev |>)) in
+     let* _ := (match jdiv with
+                | Some dj => let* root := gets root_of in
+                             let* p := lift (pointer_at_path root (path_parse (j_as_str dj))) in
+                             mod_state (fun s => s <| ss_diverted := p |>)
+                | None => ret tt
+                end) in
+     let* _ := (let* vo := lift (or_bad "Invalid visit counts object" (j_as_obj (JObj ovi))) in
+                let* m := lift (jobject_to_int_hashmap vo) in
+                mod_state (fun s => s <| ss_visits := m |>)) in
+     let* _ := (let* vo := lift (or_bad "Invalid turn indices object" (j_as_obj (JObj otu))) in
+                let* m := lift (jobject_to_int_hashmap vo) in
+                mod_state (fun s => s <| ss_turns := m |>)) in
+     let* _ := load_i32 (JInt (ss_turn s)) "Invalid current turn index" (fun z s => s <| ss_turn := z |>) in
+     let* _ := load_i32 (JInt (ss_seed s)) "Invalid story seed" (fun z s => s <| ss_seed := z |>) in
+     let* z := lift (or_bad "Invalid previous random value" (j_as_i64 (JInt (ss_prev_random s)))) in
+     mod_state (fun s => s <| ss_prev_random := wrap32 z |>)) w0
+    = (OOk tt,
+       set_st w0
+         ((((((sdiv (((w_state w0) <| ss_vars ::= fun v => v <| vs_globals :=
+                         norm_globals sw (vs_defaults (ss_vars (w_state t))) (vs_globals (ss_vars s)) |> |>)
+                      <| ss_eval := map (norm_obj sw) (ss_eval s) |>))
+               <| ss_visits := ss_visits s |>) <| ss_turns := ss_turns s |>) <| ss_turn := ss_turn s |>)
+            <| ss_seed := ss_seed s |>) <| ss_prev_random := ss_prev_random s |>))).
+  { intros w0 Hd0 Hroot0 jdiv sdiv Hdivrun.
+    rewrite (mbind_ok _ _ w0 tt _ (vars_stage ov _ w0 ltac:(rewrite Hd0; exact Hrv))).
+    rewrite (mbind_ok _ _ _ tt _ (eval_stage jev _ _ Hre)). rewrite set_st_twice, w_state_set_st.
+    match goal with |- mbind _ _ (set_st w0 ?X) = _ =>
+      rewrite (mbind_ok _ _ (set_st w0 X) tt _ (Hdivrun (set_st w0 X) Hroot0)) end.
+    rewrite set_st_twice, w_state_set_st.
+    rewrite (mbind_ok _ _ _ tt _ (intmap_stage _ ovi _ (fun m s => s <| ss_visits := m |>) _ Hrvi)).
+    rewrite set_st_twice, w_state_set_st.
+    rewrite (mbind_ok _ _ _ tt _ (intmap_stage _ otu _ (fun m s => s <| ss_turns := m |>) _ Hrtu)).
+    rewrite set_st_twice, w_state_set_st.
+    rewrite (mbind_ok _ _ _ tt _ (load_i32_run _ _ _ _ Hturn)). rewrite set_st_twice, w_state_set_st.
+    rewrite (mbind_ok _ _ _ tt _ (load_i32_run _ _ _ _ Hseed)). rewrite set_st_twice, w_state_set_st.
+    rewrite (in_i32_as_i64 _ Hprev). cbn [or_bad]. rewrite (mbind_ok _ _ _ (ss_prev_random s) _ (lift_ok_run _ _)).
+    rewrite mod_state_run, set_st_twice, w_state_set_st. now rewrite wrap32_id. }
+  unfold write_state, write_sstate. fold root s ccs cur named.
+  rewrite Hwc. cbn [bind]. rewrite Hfd. cbn [bind]. rewrite Hwe. cbn [bind].
+  unfold load_state.
+  pose proof (load_flows_core_run panics sw root fd _ cur t Hrel Hnd Hroot) as Hflows.
+  set (w2 := set_st t (flows_loaded (w_state t) (flows_as_saved sw root s) cur)) in *.
+  assert (Hd2 : vs_defaults (ss_vars (w_state w2)) = vs_defaults (ss_vars (w_state t))).
+  { subst w2. rewrite w_state_set_st, flows_loaded_vars. reflexivity. }
+  destruct (ptr_is_null (ss_diverted s)) eqn:En.
+  - cbn [bind app]. rewrite Hwv, Hwvi, Hwtu. unfold jfield.
+    eexists. split; [reflexivity|].
+    change (JObj _) with (JObj (state_fields (JObj fd) (JStr cur) (JObj ov) (JArr jev) [] (JObj ovi) (JObj otu)
+                                   (JInt (ss_turn s)) (JInt (ss_seed s)) (JInt (ss_prev_random s))
+                                   (JInt ink_save_state_version) (JInt INK_VERSION_CURRENT_))).
+    rewrite load_shape_0. unfold load_fields.
+    rewrite (mbind_ok _ _ t tt t Hver). rewrite (mbind_ok _ _ t tt _ Hflows).
+    rewrite (Htail w2 Hd2 Hroot None (fun x => x)) by (intros w1 _; destruct w1; reflexivity).
+    subst w2. rewrite set_st_twice, w_state_set_st.
+    unfold norm_save. rewrite <- set_st_eq. f_equal. f_equal.
+    rewrite <- state_loaded_norm. unfold state_loaded. fold root s. rewrite En. reflexivity.
+  - unfold diverted_ok_b, reload_diverted in Hdiv.
+    destruct (ptr_path root (ss_diverted s)) as [[pa|]| |] eqn:Ep; cbn [bind] in Hdiv; try discriminate.
+    + destruct (pointer_at_path root (path_parse (Some (path_string pa)))) as [q| |] eqn:Eq; try discriminate.
+      apply pointer_eqb_eq in Hdiv. subst q.
+      cbn [bind app]. rewrite Hwv, Hwvi, Hwtu. unfold jfield.
+      eexists. split; [reflexivity|].
+      change (JObj _) with (JObj (state_fields (JObj fd) (JStr cur) (JObj ov) (JArr jev)
+                                     [(T "currentDivertTarget", JStr (path_string pa))] (JObj ovi) (JObj otu)
+                                     (JInt (ss_turn s)) (JInt (ss_seed s)) (JInt (ss_prev_random s))
+                                     (JInt ink_save_state_version) (JInt INK_VERSION_CURRENT_))).
+      rewrite load_shape_1. unfold load_fields.
+      rewrite (mbind_ok _ _ t tt t Hver). rewrite (mbind_ok _ _ t tt _ Hflows).
+      rewrite (Htail w2 Hd2 Hroot (Some (JStr (path_string pa))) (fun x => x <| ss_diverted := ss_diverted s |>)).
+      * subst w2. rewrite set_st_twice, w_state_set_st.
+        unfold norm_save. rewrite <- set_st_eq. f_equal. f_equal.
+        rewrite <- state_loaded_norm. unfold state_loaded. fold root s. rewrite En. reflexivity.
+      * intros w1 Hr1. rewrite (mbind_ok _ _ w1 (root_of w1) w1) by reflexivity.
+        cbn [j_as_str]. rewrite Hr1, Eq. rewrite (mbind_ok _ _ w1 _ w1 (lift_ok_run _ _)).
+        apply mod_state_run.
+    + (* a non-null pointer has a path *)
+      exfalso. unfold ptr_path in Ep. unfold ptr_is_null in En. destruct (ptr_c (ss_diverted s)); [|discriminate].
+      destruct (get_path root p); cbn in Ep; try discriminate. destruct (0 <=? ptr_i (ss_diverted s))%Z; discriminate.
+Qed.
+
+End StateFinal.
+
+(* ================================================================= *)
+(*  pointers into a well-formed content tree (uses Data/TreeProofs.v) *)
+(* ================================================================= *)
+From Ink.Data Require Import Tree TreeProofs.
+
+Lemma pstep_eqb_refl a : pstep_eqb a a = true.
+Proof. destruct a; cbn; [apply Nat.eqb_refl|apply text_eqb_refl]. Qed.
+Lemma pos_eqb_refl p : pos_eqb p p = true.
+Proof. induction p as [|x p IH]; cbn; [reflexivity|]. now rewrite pstep_eqb_refl, IH. Qed.
+
+Lemma wf_comp_b_complete c : wf_comp c -> wf_comp_b c = true.
+Proof.
+  destruct c as [i|n]; cbn.
+  - intros H. now apply N.ltb_lt.
+  - intros (H1 & H2 & H3). rewrite H3. destruct n; [congruence|]. cbn [is_nil negb andb].
+    rewrite andb_true_r. unfold no_dot. apply negb_true_iff. destruct (existsb _ _) eqn:E; [|reflexivity].
+    apply existsb_exists in E as (x & Hin & Hx). apply N.eqb_eq in Hx. subst. contradiction.
+Qed.
+
+(* the path of a position of a well-formed tree survives printing and parsing *)
+Lemma own_path_reparse root p path :
+  wf_tree root = true -> valid_pos root p -> get_path root p = Ok path ->
+  path_parse (Some (path_string path)) = path.
+Proof.
+  intros Hwf Hv Hg. destruct (get_path_wf_lemma root p path Hwf Hv Hg) as [Hc Hr].
+  apply path_parse_string. unfold get_path in Hg. destruct (get_path_comps root p) as [cs| |]; try discriminate.
+  inversion Hg; subst path. unfold wf_path_b, path_new. cbn [p_cache p_comps p_rel] in *.
+  rewrite orb_true_r, andb_true_r. apply forallb_forall. intros c Hin. apply wf_comp_b_complete.
+  rewrite Forall_forall in Hc. now apply Hc.
+Qed.
+
+(* callstack elements: cPath / idx denote the pointer that was written *)
+Lemma pointer_roundtrip_lemma2 root cp c i :
+  wf_tree root = true -> cont_at root cp = Some c -> in_i32 i = true ->
+  elem_ptr_ok_b root (mkPtr (Some cp) i) = true.
+Proof.
+  intros Hwf Hc Hi. unfold elem_ptr_ok_b. cbn [ptr_c ptr_i]. rewrite Hi. cbn [andb].
+  assert (Hv : valid_pos root cp).
+  { unfold valid_pos, cont_at in *. destruct (obj_at root cp); [discriminate|discriminate]. }
+  destruct (path_resolves_to_self_lemma root cp Hwf Hv) as (path & Hg & Hr).
+  rewrite Hg. rewrite (own_path_reparse root cp path Hwf Hv Hg). rewrite Hr. cbn [sr_pos].
+  rewrite pos_eqb_refl. unfold is_cont_at, cont_at in *. destruct (obj_at root cp) as [[]|]; try discriminate. reflexivity.
+Qed.
